@@ -271,3 +271,12 @@ CHECKS["C05"]["text"] += " Also: a statement without ';' closed by the first lin
 for _e in ENGINES:
     if _e["name"] == "E7 linemodel":
         _e["serves_properties"] = ["C03", "C05", "C06", "C07", "C08", "C09", "C14", "C16", "C17"]
+
+CHECKS["C06"]["text"] += " O-lex-prefix: in every lexer configuration the table / alter / sequence / entities fixed points reach with a plain name (table, column, constraint, REFERENCES target, ALTER / INDEX target, sequence and entity names), a name that merely begins like one of the keywords (four spellings per keyword) is typed ID with its value verbatim. O-name (E7 + scanner): identifiers with unusual characters (#, $, -, blank, dot, -- inside delimiters; delimited keywords; digit-first and long names) in four naming positions reach the grammar verbatim and are one lexeme; two known findings (bracketed / back-ticked names with a blank are cut)."
+CHECKS["C13"]["text"] += " O-run: Parser.run itself is evaluated abstractly with parse_data replaced by representative flat results (empty, a property, every kind but tables, comments only ...): with and without group_by_type, in two modes, with and without json_dump it returns exactly what the formatter returns - the six documented buckets also for an empty result."
+CHECKS["C03"]["text"] += " O-concat also covers CREATE TABLE statements whose names are equal up to quoting / letter case, with and without IF NOT EXISTS (each is reported). T-SHARED-DEFAULT also rejects mutable default arguments that are stored, returned, passed on or mutated."
+CHECKS["C02"]["text"] += " Key lists are also written in the reverse of the column-definition order, and the final-output shapes are distinguished by where the declared key columns sit in the column list (a key is reported in declaration order)."
+CHECKS["C04"]["text"] += " MODIFY / ALTER COLUMN / DROP / RENAME are applied to the first, a middle and the last column; eight scripts of two to four ALTER statements on one table are judged on the final output (every column keeps the documented keys, the column list is the declared one)."
+CHECKS["C17"]["text"] += " Sequence names are also written double-quoted, bracketed, back-ticked and schema-qualified with quotes (the options after a delimited name are options all the same)."
+CHECKS["C11"]["text"] += " Two-element clause lists whose second column is named like a word of the column-definition vocabulary (CLUSTER BY (a, order), CLUSTERED BY (a, set)) are part of the Snowflake and Hive groups."
+CHECKS["C18"]["text"] += " Entity names are also written double-quoted, including names with a dot or a blank inside the quotes (schema and name are tokens, never a textual split)."
